@@ -16,7 +16,8 @@ vars == <<l, scn, cfg, now, b, resp, g, gresp, gnext, ntrip, nstandby, bad, drif
 Ev == Log[l]
 IsEvent(e) == l <= Len(Log) /\ Log[l].e = e /\ l' = l + 1
 
-G0 == [state |-> "standby", shield |-> 0, rstart |-> 0, a |-> 0, d |-> 0]
+(* ep counts the state changes; began : request id -> [st, shield, ep] as the ghost stood when the request was handed to the breaker *)
+G0 == [state |-> "standby", shield |-> 0, rstart |-> 0, a |-> 0, d |-> 0, ep |-> 0, began |-> <<>>]
 Init == /\ l = 1 /\ scn = "" /\ cfg = [tps |-> 1] /\ now = 0 /\ b = InitBreaker /\ resp = <<>>
         /\ g = G0 /\ gresp = <<>> /\ gnext = NoCheck /\ ntrip = 0 /\ nstandby = 0
         /\ bad = <<>> /\ drift = <<>> /\ nev = 0
@@ -33,9 +34,9 @@ RECURSIVE ApplyTrans(_, _, _, _)
 ApplyTrans(gs, trans, t, c) ==
   IF trans = <<>> THEN gs
   ELSE LET to == Head(trans)
-           g1 == CASE to = "recovering" -> [gs EXCEPT !.state = to, !.rstart = t, !.a = 0, !.d = 0]
-                   [] to = "standby" -> [gs EXCEPT !.state = to]
-                   [] to = "tripped" -> [gs EXCEPT !.state = to, !.shield = t + c.fallback]
+           g1 == CASE to = "recovering" -> [gs EXCEPT !.state = to, !.rstart = t, !.a = 0, !.d = 0, !.ep = @ + 1]
+                   [] to = "standby" -> [gs EXCEPT !.state = to, !.ep = @ + 1]
+                   [] to = "tripped" -> [gs EXCEPT !.state = to, !.shield = t + c.fallback, !.ep = @ + 1]
                    [] OTHER -> gs
        IN ApplyTrans(g1, Tail(trans), t, c)
 RECURSIVE IllegalTrans(_, _)
@@ -64,6 +65,9 @@ Start ==
           <<~IllegalTrans(g.state, Ev.trans), "C05.LegalTransition">>,
           <<~(g.state = "tripped" /\ now >= g.shield /\ (Ev.trans = <<>> \/ Head(Ev.trans) # "recovering")), "C12.RecoveryBegins">>,
           <<~(g.state = "recovering" /\ now > g.rstart + D /\ ~(pass /\ g1.state = "standby")), "C12.StandbyAfterRecovery">>,
+          \* the recovery period includes its last instant (the ramp is stated "at every instant of the recovery period"): the
+          \* breaker may not declare the period over while elapsed <= duration.  The pinned code agrees (it tests now.After(until)).
+          <<~(g.state = "recovering" /\ now <= g.rstart + D /\ CountIn(Ev.trans, "standby") > 0), "C12.RecoveryPeriodIncludesItsLastInstant">>,
           <<~(inRamp /\ pass /\ ~(RampL(g1.a + 1, el, D) <= RampR(g1.a + g1.d + 1, el, D))), "C12.PassWithinRamp">>,
           <<~(inRamp /\ ~pass /\ ~(RampL(g1.a + 1, el, D) >= RampR(g1.a + g1.d + 1, el, D))), "C12.RefuseOnlyAtRamp">> >>)
      /\ g' = IF inRamp THEN (IF pass THEN [g1 EXCEPT !.a = @ + 1] ELSE [g1 EXCEPT !.d = @ + 1]) ELSE g1
@@ -116,6 +120,18 @@ Finish ==
                       THEN drift ELSE Report(drift, scn, l, "cb.checkAndSet")
   /\ UNCHANGED <<scn, cfg, now>> /\ nev' = nev + 1
 
+(* the protected handler aborted (panicked) without answering: there is no completed response - nothing is recorded,   *)
+(* the condition is not evaluated, the state does not move                                                           *)
+Abort ==
+  /\ IsEvent("Abort")
+  /\ bad' = ReportAll(bad, scn, l, <<
+        <<Ev.trans = <<>>, "C18.NoSpuriousTrip">>,
+        <<Ev.checked = "none", "C18.EvaluatedOnlyAtCompletedResponses">> >>)
+  /\ g' = ApplyTrans(g, Ev.trans, now, cfg)
+  /\ ntrip' = ntrip + CountIn(Ev.trans, "tripped")
+  /\ nstandby' = nstandby + CountIn(Ev.trans, "standby")
+  /\ UNCHANGED <<scn, cfg, now, b, resp, gresp, gnext, drift>> /\ nev' = nev + 1
+
 (* quiescence: asynchronous side effects have been waited for *)
 Effects ==
   /\ IsEvent("Effects")
@@ -143,6 +159,21 @@ CAdmit ==       \* decision taken under the breaker's lock (not standby at the q
           <<~(inRamp /\ ~Ev.pass /\ ~(RampL(g.a + 1, el, D) >= RampR(g.a + g.d + 1, el, D))), "C12.RefuseOnlyAtRamp">> >>)
      /\ g' = IF inRamp THEN (IF Ev.pass THEN [g EXCEPT !.a = @ + 1] ELSE [g EXCEPT !.d = @ + 1]) ELSE g
   /\ UNCHANGED <<scn, cfg, now, b, resp, gresp, gnext, ntrip, nstandby, drift>> /\ nev' = nev + 1
+(* goroutine drivers: CBegin is emitted (through the same sequence counter as the hooks) just before a request is handed to   *)
+(* the breaker, CEnter when the protected handler is entered.  A request that was handed over while the ghost stood tripped  *)
+(* inside its shield, and enters the handler with no state change in between, slipped past the shield - whichever path took it *)
+CBegin ==
+  /\ IsEvent("CBegin")
+  /\ g' = [g EXCEPT !.began = [x \in DOMAIN g.began \cup {Ev.id} |->
+                                  IF x = Ev.id THEN [st |-> g.state, shield |-> g.shield, ep |-> g.ep] ELSE g.began[x]]]
+  /\ UNCHANGED <<scn, cfg, now, b, resp, gresp, gnext, ntrip, nstandby, bad, drift>> /\ nev' = nev + 1
+CEnter ==
+  /\ IsEvent("CEnter")
+  /\ bad' = ReportAll(bad, scn, l, <<
+        <<~(Ev.id \in DOMAIN g.began /\ g.began[Ev.id].st = "tripped" /\ now < g.began[Ev.id].shield /\ g.began[Ev.id].ep = g.ep),
+          "C05.TrippedShields">> >>)
+  /\ UNCHANGED <<scn, cfg, now, b, resp, g, gresp, gnext, ntrip, nstandby, drift>> /\ nev' = nev + 1
+
 CEffects ==
   /\ IsEvent("CEffects")
   /\ bad' = ReportAll(bad, scn, l, <<
@@ -153,6 +184,6 @@ CEffects ==
 End == /\ IsEvent("End")
        /\ JsonSerialize("result.json", [bad |-> bad, drift |-> drift, events |-> nev, lines |-> l])
        /\ UNCHANGED vars
-Next == Reset \/ Adv \/ Start \/ Finish \/ Effects \/ CState \/ CAdmit \/ CEffects \/ End
+Next == Reset \/ Adv \/ Start \/ Finish \/ Abort \/ Effects \/ CState \/ CAdmit \/ CBegin \/ CEnter \/ CEffects \/ End
 Spec == Init /\ [][Next]_vars
 =============================================================================
